@@ -96,6 +96,35 @@ def _contains(tree, node):
     return False
 
 
+def visible_def_nodes(par, use, name):
+    """The `let` statement that binds `name` at the use site (nearest enclosing block, last preceding let), or None."""
+    from synq import show
+    cur = use
+    while id(cur) in par:
+        p = par[id(cur)]
+        if p.get("k") == "block":
+            idx = None
+            for i, st in enumerate(p["s"]):
+                if st is cur or _contains(st, cur):
+                    idx = i
+                    break
+            if idx is not None:
+                lets = [st for st in p["s"][:idx] if st.get("k") == "local" and st["pat"].get("k") == "p_ident" and st["pat"]["n"] == name]
+                if lets:
+                    return lets[-1]
+                # a tuple / struct pattern that binds the name shadows outer definitions: not a plain let
+                for st in p["s"][:idx]:
+                    if st.get("k") == "local" and st["pat"].get("k") != "p_ident" and any(x.get("k") == "p_ident" and x["n"] == name for x in __import__("synq").walk(st["pat"])):
+                        return None
+        if p.get("k") in ("closure", "item_fn"):
+            # parameters of the closure shadow outer names
+            for prm in p.get("params", []):
+                if any(x.get("k") == "p_ident" and x["n"] == name for x in __import__("synq").walk(prm)):
+                    return None
+        cur = p
+    return None
+
+
 def visible_defs(par, use, name):
     """Initialisers that can define local `name` at the use site, by lexical scoping: `let name = init` statements that precede
     the use in a block enclosing it (the nearest such block shadows outer ones), plus every `name = rhs` assignment inside the
